@@ -29,6 +29,10 @@ func (t *tree) doPrefetchPrefixes(ctx context.Context, prefixes [][]byte, limit 
 	if len(prefixes) == 0 || limit == 0 {
 		return nil
 	}
+	if t.cache.pendingRoot == nil {
+		// The tree is (locally) empty, there is nothing to fetch into.
+		return nil
+	}
 
 	return t.cache.remoteSync(
 		ctx,
